@@ -36,6 +36,8 @@ def units(pid, tier):
     # big classes first for better load balance
     for k in keys:
         specs.append(("l2", pid, k))
+    for k in l2.nullable_used():
+        specs.append(("l2n", pid, k))
     if cfg["l1w"] == "all":
         specs += [("l1w", pid, n) for n in reg.writers]
         specs += [("l1s", pid, n) for n in ("empty_tagged", "tagged_field", "arrays_w")]
@@ -74,6 +76,13 @@ def run_unit(spec):
             from checks import conf
             out += conf.run_class(arg)
         return out
+    if kind == "l2n":
+        # the nullable wrappers (marker byte) of the classes used as nullable structs
+        from checks import l2
+        clauses = [c for c in cfg["l2"] if c in ("write", "match", "trunc", "general")]
+        if "roundtrip" in cfg["l2"]:
+            clauses = ["write", "match"]
+        return l2.run_class(arg, clauses, nullable=True) if clauses else []
     import kio.serial.readers as R
     import kio.serial.writers as W
     from checks import l1_serial as L1
